@@ -302,7 +302,7 @@ func (a StringDict) M__eq__(other Object) (Object, error) {
 		if !ok {
 			return False, nil
 		}
-		res, err := Eq(av, bv)
+		res, err := ItemEq(av, bv)
 		if err != nil {
 			return nil, err
 		}
